@@ -626,6 +626,59 @@ def run(chk):
         return True, "", ev or ["no month comparison in from_parts (nothing to decide)"]
     chk.ob("C15.R5:leap-day-after-february", "the leap day is added for dates from March on (month base and constant agree)", leap_day_after_february)
 
+    def adjusted_before_use():
+        """In the calendar conversions a quotient that is conditionally corrected (`let mut q = a / b; if q == K { q -= 1 }`) is only read after
+        the correction: any other read of it sits behind the correcting branch, never in front of it (the remainder taken from the
+        uncorrected quotient is a day count of the wrong period - 29 Feb becomes 1 Mar of the year before)."""
+        CMP = ("Eq", "Ne", "Lt", "Le", "Gt", "Ge")
+        n, ev = 0, []
+
+        def reads(b, op, l, d=0):
+            x = mir.Body._op_local(op)
+            if x is None or d > 3:
+                return False
+            if x == l:
+                return True
+            ds = [q for q in b.defs().get(x, ()) if q[2] == "assign"]
+            return len(ds) == 1 and ds[0][3]["k"] in ("use", "cast") and reads(b, ds[0][3]["op"], l, d + 1)
+        for b in [x for k, x in P.bodies.items() if re.search(r"timestamp::Timestamp::(to_parts|from_parts)$", k)]:
+            for l, dsl in b.defs().items():
+                ds = [q for q in dsl if q[2] == "assign"]
+                if len(ds) != 2 or not b.local_name(l):
+                    continue
+                # the guard: a switch whose discriminant is `L <cmp> const`, computed in the switch's own block
+                G = cmp_j = None
+                for gi, t in b.switches():
+                    lo = mir.Body._op_local(t["discr"])
+                    for jx, st in enumerate(b.blocks[gi]["stmts"]):
+                        if st.get("k") == "assign" and "p" not in st["place"] and st["place"]["l"] == lo and st["rv"]["k"] == "binop" and st["rv"]["op"] in CMP \
+                                and reads(b, st["rv"]["a"], l) and isinstance(mir.o_const_value(b.origin(st["rv"]["b"])), int):
+                            G, cmp_j = gi, jx
+                if G is None:
+                    continue
+                corr = [q for q in ds if q[0] != G and any(g[0] == G for g in b.guards_of(q[0]))]
+                init = [q for q in ds if q not in corr]
+                if len(corr) != 1 or len(init) != 1 or not (init[0][0] == G or b.dominates(init[0][0], G)):
+                    continue
+                arm_target = [g[2] for g in b.guards_of(corr[0][0]) if g[0] == G][0]
+                n += 1
+                for (ubb, uj, kind, obj) in b.uses(l):
+                    if b.edge_dominates(G, arm_target, ubb):
+                        continue                                    # inside the correcting arm
+                    if ubb == G:
+                        if kind == "stmt" and uj <= cmp_j and obj["rv"]["k"] in ("use", "binop", "cast") and (obj["rv"]["k"] != "binop" or obj["rv"]["op"] in CMP):
+                            continue                                # the comparison itself (and the copy feeding it)
+                        line = obj.get("line") if kind == "stmt" else None
+                        return False, ("%s reads `%s` at %s:%s before the branch that corrects it (`if %s == .. { %s -= 1 }`): the value used is the "
+                                       "uncorrected quotient" % (b.key, b.local_name(l), b.file, line, b.local_name(l), b.local_name(l))), [], "%s:%s" % (b.file, line)
+                    if not b.dominates(G, ubb):
+                        return False, "%s reads `%s` on a path that has not been through the branch that corrects it" % (b.key, b.local_name(l)), [], b.span
+                ev.append("%s: `%s` is read only after its correction" % (b.key.rsplit("::", 1)[-1], b.local_name(l)))
+        if n < 3:
+            raise mir.AnchorMissing("conditionally corrected quotients in the calendar conversions (found %d)" % n)
+        return True, "", ev
+    chk.ob("C15.R5:adjusted-before-use", "a conditionally corrected quotient of the calendar conversion is never read before its correction", adjusted_before_use)
+
     chk.ob("C15.R5:four-year-shortcut", "a leap-year computation without century terms is only reachable for years below 2100",
            four_year_shortcut)
 
